@@ -1286,14 +1286,17 @@ def dtype_pairs(spec):
         if a.dtype != np.float64 or not a.size:
             continue
         name = ".".join(str(x) for x in path if x not in ("a", "tuple"))
+        # SoftAbs eigendecomposes its argument at construction: a float32 argument gives single precision parameters
+        f32 = path[-1] != "symmetric_array"
         s8 = a * 8.0  # generated entries are multiples of 1/8: integral after scaling (sign / triangle / order kept)
         if np.all(s8 == np.round(s8)) and np.all(np.abs(s8) < 2**40):
             base = _replace(spec, path, A(s8))
             out.append((f"{name}:dtype-int64", base, _replace(spec, path, A(s8.astype(np.int64)))))
-            out.append((f"{name}:dtype-float32", base, _replace(spec, path, A(s8.astype(np.float32)))))
+            if f32:
+                out.append((f"{name}:dtype-float32", base, _replace(spec, path, A(s8.astype(np.float32)))))
             if np.all((s8 == 0) | (s8 == 1)):
                 out.append((f"{name}:dtype-bool", base, _replace(spec, path, A(s8.astype(np.bool_)))))
-        elif np.all(a.astype(np.float32).astype(np.float64) == a):
+        elif f32 and np.all(a.astype(np.float32).astype(np.float64) == a):
             out.append((f"{name}:dtype-float32", spec, _replace(spec, path, A(a.astype(np.float32)))))
     return out
 
@@ -1784,7 +1787,8 @@ LEVEL_TEXT = (
     "EVERY class entry satisfying the decidable soundness predicate: eq => equal hash (eq_imp_hash_eq), eq => equal "
     "dense array as a function of the hand-listed denoteParams (eq_imp_same_denote), equal stored parameters => eq "
     "(same_params_imp_eq). (3) decide over the table the translator extracts from the tree under test: all 42 "
-    "classes present (table_complete), all eq/hash/__init__ shapes understood (eq_hash_understood), equality "
+    "classes present (table_complete), all eq/hash/__init__ shapes understood and hash_array hashing by value, i.e. real "
+    "dtypes cast to float64 (eq_hash_understood), equality "
     "fields cover denoteParams, hash fields within equality fields, equality reads stored parameters only, kwargs "
     "arrays frozen (table_sound and parts). Tie: dynamic cross-check of the table on live objects; operations in "
     "random orders vs cold reference (bitwise), snapshots, copies, in-place writes, one-option variation pairs on "
